@@ -39,6 +39,9 @@ def structures(res, rng):
         npos = rng.choice((12, 30, 80)) if rng.random() < 0.4 else rng.randint(2, 25)
         out.append(gen.random_structure(rng, npos, nstrands=rng.choice((None, 3, 5, 8)), pair_bias=rng.choice((0.2, 0.4, 0.7)),
                                         depth_bias=rng.choice((0.3, 0.6))))
+    for _ in range(1500 if quick else 30000):
+        out.append(gen.random_nested_components(rng, depth=rng.choice((1, 2, 2, 3))))
+    out.append('(+((+).+)+(+.))')
     return out
 
 
@@ -234,7 +237,31 @@ def object_oracle(res, rng, s, parts, tier):
                 if not okk:
                     res.violation('split():wrong-objects', desc, repr(got), 'the singleton of every component, identical on a second split')
                 res.nontriv(('obj', s, sub, collide))
-            del got, got2, whole
+            # components that were released may have their (automatic) names taken by unrelated complexes:
+            # a later split must still yield the components, not whatever now carries those names
+            if not raised:
+                newnames = [g.name for g, e in zip(got, exp) if e[0] is None]
+                del got, got2
+                squat = []
+                for nm in newnames:
+                    try:
+                        squat.append(mk(['b', 'b', 'a', 'b', 'a'], '.....', nm))
+                    except SingletonError:
+                        pass
+                if squat:
+                    try:
+                        got3 = list(whole.split())
+                        keys = [(tuple(map(str, g.sequence)), tuple(g.structure)) for g in got3]
+                        okk = len(got3) == len(comps) and all(k in set(ref.rotations(a, b)) for k, (a, b) in zip(keys, comps))
+                        if not okk:
+                            res.violation('split():wrong-objects-after-name-reuse', desc, repr(got3), 'the components of the complex')
+                        del got3
+                    except SingletonError:
+                        pass
+                    res.count('name_reuse_scenarios')
+                del squat
+            got = got2 = None
+            del whole
             live.clear(); sim.clear(); exp.clear()
     clear_singletons(ComplexS)
     ComplexS.ID = 1
